@@ -942,7 +942,7 @@ func c14Directed() ([]c14Node, []*c14Def) {
 		{Lines: [][]c14Func{{kw("zzz")}}, Annos: [][]c14Param{{{Key: "add_latency", Val: "5"}}}, Policy: "min"},
 		{Lines: [][]c14Func{{kw("hk"), kw("sg")}, {{Name: "subtag", Params: []c14Param{{Key: "keyword", Val: "my"}}}}}, Annos: [][]c14Param{nil, nil}, Policy: "min"},
 		{Lines: [][]c14Func{{kw("")}, {{Name: "bogus"}}}, Annos: [][]c14Param{nil, nil}, Policy: "min"},                   // catch-all line first
-		{Lines: [][]c14Func{{kw("hk", ), {Name: "name", Params: []c14Param{{Val: "hk-1"}, {Key: "badkey", Val: "q"}}}}}, Annos: [][]c14Param{nil}, Policy: "min"}, // OR leaves before the bad key
+		{Lines: [][]c14Func{{kw("hk"), {Name: "name", Params: []c14Param{{Val: "hk-1"}, {Key: "badkey", Val: "q"}}}}}, Annos: [][]c14Param{nil}, Policy: "min"}, // OR leaves before the bad key
 		{Lines: [][]c14Func{{{Name: "bogus", Params: []c14Param{{Val: "x"}}}}}, Annos: [][]c14Param{nil}, Policy: "min"},
 		{Lines: [][]c14Func{{{Name: "name", Params: []c14Param{{Key: "keyword", Val: "hk"}, {Key: "badkey", Val: "q"}}}}}, Annos: [][]c14Param{nil}, Policy: "min"},
 		{Lines: [][]c14Func{{kw("hk")}}, Annos: [][]c14Param{{{Key: "add_latency", Val: "5ms"}}}, Policy: "min"},
@@ -974,7 +974,7 @@ func TestVerifC14(t *testing.T) {
 			if text, ok := c14DefText(r, d); ok {
 				if pg, err := c14Parse(text); err == nil {
 					g, via = pg, "parser"
-					stats.Sample(strings.ReplaceAll(strings.TrimSpace(text[strings.Index(text, "g {"):]), "\n", " ; "))
+					stats.Sample(strings.Join(strings.Fields(text[strings.Index(text, "  g {"):]), " "))
 				} else {
 					stats.Inc("text.rejected_by_parser")
 				}
@@ -1053,9 +1053,9 @@ func TestVerifC14(t *testing.T) {
 	dp.Close()
 	ep.Close()
 
-	nPools := 350
+	nPools := 2500
 	if VThorough() {
-		nPools = 7000
+		nPools = 60000
 	}
 	for pi := 0; pi < nPools; pi++ {
 		nodes := c14GenPool(r, stats)
